@@ -26,6 +26,7 @@ def _work_one(idx):
     eng.unmodelled = set()
     eng.used_contracts = set()
     t0 = time.time()
+    eng.deadline = time.time() + (120 if os.environ.get("VERIF_TIER") != "thorough" else 600)
     rec = {"decl": d.name, "kind": d.kind, "status": "ok", "info": None, "file": d.file, "line": d.line}
     try:
         if d.kind == "lemma":
@@ -233,7 +234,9 @@ def _run(prop, tier, seed, meta, run_dir, t_start):
         print("  obligation %s: %s" % (o["name"], replay.describe(f)))
         exit_code = 1
 
-    n_obl = len(obls)
+    # obligations whose only failures are listed known findings are reported separately, not counted as proved
+    kf_names = set(o["name"] for (o, f, e) in known_lines) - set(o["name"] for (o, f) in violations)
+    n_obl = len([o for o in obls if o["name"] not in kf_names])
     n_dis = sum(1 for o in obls if o["verdict"] == "discharged")
     wall = time.time() - t_start
     level = meta["level"]
@@ -255,6 +258,8 @@ def _run(prop, tier, seed, meta, run_dir, t_start):
             "solver_ms_total": round(sum(o["ms"] for o in obls), 1),
             "front_end_s": round(front_s, 2),
             "known_findings_reported": sorted(set("%s" % o["name"] for (o, f, e) in known_lines)),
+            "obligations_failing_only_on_known_findings": sorted(kf_names),
+            "obligations_generated_including_known_findings": len(obls),
             "not_decided": meta.get("not_decided", []),
             "abstracted_constructs": sorted(set(x for r in recs for x in r["abstracted"]))[:80],
             "calls_without_contract_logged_as_effects": sorted(set(x for r in recs for x in r["unmodelled"]))[:80],
